@@ -338,8 +338,14 @@ func (v *numericValidator) generate(out *codegen.Emitter, format string) {
 		if v.roundToInt {
 			out.Printlnf(`if %s %s%s %% %v != 0 {`, checkPointer, pointerPrefix, value, v.valueOf(*v.multipleOf))
 		} else {
+			modValue := pointerPrefix + value
+			if v.fieldName == "" {
+				// The value is a named number type (e.g. `type Plain Foo`), which math.Mod does not accept.
+				modValue = fmt.Sprintf("float64(%s)", modValue)
+			}
+
 			out.Printlnf(
-				`if %s math.Abs(math.Mod(%s%s, %v)) > 1e-10 {`, checkPointer, pointerPrefix, value, v.valueOf(*v.multipleOf))
+				`if %s math.Abs(math.Mod(%s, %v)) > 1e-10 {`, checkPointer, modValue, v.valueOf(*v.multipleOf))
 		}
 
 		out.Indent(1)
